@@ -691,6 +691,8 @@ func (se *SpecEnv) callSpec(c *ast.CallExpr) Value {
 		return se.fr.v.ringIsZero(targ(0))
 	case "inv":
 		return se.fr.v.ringInv(targ(0))
+	case "rexp": // rexp(a, k): a^k in the ring for an integer k (uninterpreted, as Element.Exp is at the ring layer)
+		return F.App("ring.exp", SInt, targ(0), targ(1))
 	case "valw": // valw(w, t0, t1, ...): little-endian value of explicit w-bit words
 		w := targ(0)
 		var sum []*Term
@@ -700,8 +702,18 @@ func (se *SpecEnv) callSpec(c *ast.CallExpr) Value {
 		return F.Add(sum...)
 	case "be", "le": // big/little-endian value of a byte array or slice window of constant length
 		return se.bytesVal(arg(0), name == "be")
-	case "same": // same(a, b): pointer identity
-		a, b := arg(0), arg(1)
+	case "same": // same(a, b): pointer identity (an lvalue that denotes a pointer-typed cell is read first)
+		rd := func(x Value) Value {
+			if pv, ok := x.(*PtrV); ok && pv.Obj != nil && len(pv.Path) > 0 {
+				if c := se.fr.v.content0(se.state(), pv.Obj); c != nil {
+					if inner, isP := se.fr.v.getPath(c, pv.Path).(*PtrV); isP {
+						return inner
+					}
+				}
+			}
+			return x
+		}
+		a, b := rd(arg(0)), rd(arg(1))
 		pa, ok1 := a.(*PtrV)
 		pb, ok2 := b.(*PtrV)
 		if ok1 && ok2 {
@@ -709,22 +721,28 @@ func (se *SpecEnv) callSpec(c *ast.CallExpr) Value {
 		}
 		unsup("same() on %T,%T", a, b)
 	case "isnil":
-		switch a := arg(0).(type) {
-		case *PtrV:
-			return F.Bool(a.Obj == nil)
-		case *SliceV:
-			return F.Bool(a.Obj == nil)
-		case *IfaceV:
-			return se.fr.ifaceEq(se.state(), &IfaceV{V: se.fr.v.nilIface()}, a)
-		case *IteV:
-			x, okx := a.A.(*IfaceV)
-			y, oky := a.B.(*IfaceV)
-			if okx && oky {
-				nl := &IfaceV{V: se.fr.v.nilIface()}
-				return F.Ite(a.C, se.fr.ifaceEq(se.state(), nl, x), se.fr.ifaceEq(se.state(), nl, y))
+		var isNil func(x Value) *Term
+		isNil = func(x Value) *Term {
+			switch a := x.(type) {
+			case *PtrV:
+				return F.Bool(a.Obj == nil)
+			case *SliceV:
+				return F.Bool(a.Obj == nil)
+			case *IfaceV:
+				return se.fr.ifaceEq(se.state(), &IfaceV{V: se.fr.v.nilIface()}, a)
+			case *IteV:
+				return F.Ite(a.C, isNil(a.A), isNil(a.B))
 			}
+			unsup("isnil of %T", x)
+			return nil
 		}
-		unsup("isnil of %T", arg(0))
+		return isNil(arg(0))
+	case "max":
+		x, y := targ(0), targ(1)
+		return F.Ite(F.Lt(x, y), y, x)
+	case "min":
+		x, y := targ(0), targ(1)
+		return F.Ite(F.Lt(x, y), x, y)
 	case "abs":
 		t := targ(0)
 		return F.Ite(F.Lt(t, F.I64(0)), F.Neg(t), t)
